@@ -652,12 +652,11 @@ where
             return None;
         }
 
-        // Mirror facet semantics are defined for same-dimensional simplices.
-        debug_assert_eq!(
-            self.vertices().len(),
-            neighbor_cell.vertices().len(),
-            "mirror_facet_index requires cells with matching vertex counts",
-        );
+        // Mirror facet semantics are defined for same-dimensional simplices. Validators call this on
+        // possibly malformed cells, so a mismatch is reported as "no mirror facet", not asserted.
+        if self.vertices().len() != neighbor_cell.vertices().len() {
+            return None;
+        }
 
         // Build the facet vertex set from the source cell (all except facet_idx)
         let mut facet_vertices: CellVertexBuffer = CellVertexBuffer::new();
